@@ -735,10 +735,13 @@ class CSSCalc(CSSFunction):
         def _S(minimum):
             return Sequence(PreDef.S(), minmax=lambda: (minimum, None))
 
-        _operator = Choice(Prod(name='Operator */',
-                                match=lambda t, v: v in '*/',
-                                toSeq=lambda t, tokens: (t[0], t[1])
-                                ),
+        _operator = Choice(Sequence(
+                               Prod(name='Operator */',
+                                    match=lambda t, v: v in '*/',
+                                    toSeq=lambda t, tokens: (t[0], t[1])
+                                    ),
+                               _S(0)
+                           ),
                            Sequence(
                                _S(1),
                                Choice(
